@@ -12,6 +12,9 @@ parameters, all batch sizes and all batch partitions.
 import SharkVerif.Lemmas.Kernels
 import SharkVerif.Lemmas.KernelsPSD
 import SharkVerif.Lemmas.KernelDerivs
+import Mathlib.Algebra.BigOperators.Group.List.Basic
+import Mathlib.Algebra.BigOperators.Ring.List
+import Mathlib.Algebra.Order.BigOperators.Group.List
 import Mathlib.Analysis.Real.Sqrt
 import Mathlib.Analysis.SpecialFunctions.Exp
 set_option linter.unusedSectionVars false
@@ -637,4 +640,133 @@ example : ∀ r c, r < 3 → c < 3 →
   fun r c hr hc => kernel_gram_partition_independent id id (.poly 2 1) (1/2)
     [[[1], [2]], [[3]]] [[[1]], [[2], [3]]] rfl r c hr hc
 
+end SharkVerif.C05
+
+/-! ## 7. `WeightedSumKernel::setParameterVector` produces admissible weights -/
+namespace SharkVerif.C05
+open SharkVerif.Kernels
+
+theorem foldl_exp_pos (exp : ℝ → ℝ) (hexp : ∀ x, 0 < exp x) : ∀ (ps : List ℝ) (a : ℝ), 0 < a →
+    0 < ps.foldl (fun s p => s + exp p) a
+  | [], a, ha => by simpa using ha
+  | p :: ps, a, ha => by
+      simp only [List.foldl_cons]
+      exact foldl_exp_pos exp hexp ps (a + exp p) (add_pos ha (hexp p))
+
+/-- `WeightedSumKernel::setParameterVector` always produces admissible weights (weights `exp(pᵢ) > 0`,
+weight sum `> 0`): the kernel it builds is PSD whenever its sub-kernels are. -/
+theorem wsumOfParams_admissible (exp : ℝ → ℝ) (hexp : ∀ x, 0 < exp x) (ps : List ℝ) (ks : List (Kern ℝ))
+    (hks : AdmissibleList exp ks) : Admissible exp (wsumOfParams exp ps ks) := by
+  unfold wsumOfParams
+  simp only [Admissible]
+  refine ⟨?_, (foldl_exp_pos exp hexp ps 1 one_pos).le, hks⟩
+  intro w hw
+  rcases List.mem_cons.mp hw with rfl | hw
+  · exact zero_le_one
+  · obtain ⟨p, _, rfl⟩ := List.mem_map.mp hw
+    exact (hexp p).le
+
+theorem wsumOfParams_psd (sqrt : ℝ → ℝ) (ps : List ℝ) (ks : List (Kern ℝ)) (hks : AdmissibleList Real.exp ks) :
+    IsPSD ((wsumOfParams Real.exp ps ks).eval Real.exp sqrt) :=
+  kernel_psd Real.exp sqrt _ (wsumOfParams_admissible Real.exp Real.exp_pos ps ks hks)
+
+end SharkVerif.C05
+
+/-! ## 8. PSD-ness of the linear kernel over ANY ordered field (no Mathlib matrices) -/
+namespace SharkVerif.C05
+open SharkVerif.Kernels
+
+section qf
+variable {K : Type} [Field K] [LinearOrder K] [IsStrictOrderedRing K]
+
+/-- the quadratic form `Σᵢ Σⱼ cᵢ cⱼ κ(xᵢ,xⱼ)` of a kernel on a finite weighted point list -/
+def quadForm (κ : Point K → Point K → K) (ps : List (Point K × K)) : K :=
+  (ps.map fun p => (ps.map fun q => p.2 * q.2 * κ p.1 q.1).sum).sum
+
+theorem quadForm_rankOne (h : Point K → K) (ps : List (Point K × K)) :
+    quadForm (fun x z => h x * h z) ps = (ps.map fun p => p.2 * h p.1).sum * (ps.map fun p => p.2 * h p.1).sum := by
+  unfold quadForm
+  rw [← List.sum_map_mul_right]
+  apply congrArg
+  apply List.map_congr_left
+  intro p _
+  rw [← List.sum_map_mul_left]
+  apply congrArg
+  apply List.map_congr_left
+  intro q _
+  ring
+
+theorem quadForm_add (κ₁ κ₂ : Point K → Point K → K) (ps : List (Point K × K)) :
+    quadForm (fun x z => κ₁ x z + κ₂ x z) ps = quadForm κ₁ ps + quadForm κ₂ ps := by
+  unfold quadForm
+  rw [← List.sum_map_add]
+  apply congrArg
+  apply List.map_congr_left
+  intro p _
+  rw [← List.sum_map_add]
+  apply congrArg
+  apply List.map_congr_left
+  intro q _
+  ring
+
+theorem quadForm_comap (κ : Point K → Point K → K) (s : Point K → Point K) (ps : List (Point K × K)) :
+    quadForm (fun x z => κ (s x) (s z)) ps = quadForm κ (ps.map fun p => (s p.1, p.2)) := by
+  unfold quadForm
+  simp [List.map_map, Function.comp_def]
+
+theorem dot_head_tail' (x z : Point K) : dot x z = x.headD 0 * z.headD 0 + dot x.tail z.tail := by
+  cases x with
+  | nil => simp [dot_nil_left]
+  | cons a x =>
+    cases z with
+    | nil => simp [dot_nil_right]
+    | cons b z => simp
+
+theorem linear_quadForm_nonneg_aux : ∀ (m : ℕ) (ps : List (Point K × K)), (∀ p ∈ ps, p.1.length ≤ m) →
+    0 ≤ quadForm dot ps
+  | 0, ps, h => by
+      have : quadForm dot ps = 0 := by
+        unfold quadForm
+        apply List.sum_eq_zero
+        intro v hv
+        obtain ⟨p, hp, rfl⟩ := List.mem_map.mp hv
+        apply List.sum_eq_zero
+        intro w hw
+        obtain ⟨q, _, rfl⟩ := List.mem_map.mp hw
+        have : p.1 = [] := List.eq_nil_of_length_eq_zero (Nat.le_zero.mp (h p hp))
+        simp [this, dot_nil_left]
+      rw [this]
+  | m + 1, ps, h => by
+      have e : quadForm dot ps =
+          quadForm (fun x z => (fun p : Point K => p.headD 0) x * (fun p : Point K => p.headD 0) z + dot x.tail z.tail) ps := by
+        unfold quadForm
+        apply congrArg
+        apply List.map_congr_left
+        intro p _
+        apply congrArg
+        apply List.map_congr_left
+        intro q _
+        rw [dot_head_tail' p.1 q.1]
+      rw [e, quadForm_add, quadForm_rankOne, quadForm_comap dot List.tail]
+      apply add_nonneg (mul_self_nonneg _)
+      apply linear_quadForm_nonneg_aux m
+      intro p hp
+      obtain ⟨q, hq, rfl⟩ := List.mem_map.mp hp
+      have := h q hq
+      simp only [List.length_tail]; omega
+
+/-- **linear_psd over any ordered field** (in particular ℚ, the instance the driver executes): for every finite
+list of points (any lengths) with coefficients, `Σᵢ Σⱼ cᵢ cⱼ ⟨xᵢ,xⱼ⟩ ≥ 0` — a sum of squares, one per coordinate. -/
+theorem linear_quadForm_nonneg (ps : List (Point K × K)) : 0 ≤ quadForm dot ps :=
+  linear_quadForm_nonneg_aux ((ps.map fun p => p.1.length).foldr max 0) ps (by
+    intro p hp
+    induction ps with
+    | nil => simp at hp
+    | cons a l ih =>
+      simp only [List.map_cons, List.foldr_cons]
+      rcases List.mem_cons.mp hp with rfl | hp
+      · exact le_max_left _ _
+      · exact le_trans (ih hp) (le_max_right _ _))
+
+end qf
 end SharkVerif.C05
